@@ -43,6 +43,18 @@ pub open spec fn no_rh_for(rs: Seq<ReRun>, host_lower: Seq<char>) -> bool {
 // b is a with some elements removed, order kept, and every element that does not satisfy `gone` kept
 // largest label (in bytes) that the encoder would split the name into
 pub uninterp spec fn max_label(s: Seq<char>) -> nat;
+// every queued re-run is one its handler accepts: search delays within 1 s ..= 1 h, follow-up try counter <= 3
+pub open spec fn cmd_ok(c: Command) -> bool {
+    match c {
+        Command::Browse(_, d, _, _) => 1 <= d <= 3600,
+        Command::ResolveHostname(_, d, _, _) => 1 <= d <= 3600,
+        Command::Resolve(_, n) => 1 <= n <= 3,
+        _ => true,
+    }
+}
+pub open spec fn queue_ok(z: Zeroconf) -> bool {
+    forall|i: int| 0 <= i < z.retransmissions@.len() ==> cmd_ok((#[trigger] z.retransmissions@[i]).command)
+}
 pub open spec fn backoff(d: u32) -> u32 { if 2 * d <= 3600 { (2 * d) as u32 } else { 3600u32 } }
 pub open spec fn sat_add(a: u64, b: u64) -> u64 { if a + b > u64::MAX { u64::MAX } else { (a + b) as u64 } }
 
@@ -73,6 +85,7 @@ impl Zeroconf {
             forall|i: int| old(self).retransmissions@.len() <= i < final(self).retransmissions@.len() ==>
                 (#[trigger] final(self).retransmissions@[i]).command is Resolve && final(self).timers@.count(final(self).retransmissions@[i].next_time) > 0,
             timers_superset(final(self).timers@, old(self).timers@),
+            forall|i: int| old(self).retransmissions@.len() <= i < final(self).retransmissions@.len() ==> cmd_ok((#[trigger] final(self).retransmissions@[i]).command),
     { unimplemented!() }
     // only sends AddressesFound events
     #[verifier::external_body]
